@@ -3,6 +3,7 @@ CONSTANTS
   MaxLen = 3
   SortedLen = 0
   NoForeignLen = 4
+  OneSided = "kept"
   MatchGuard = "any_mapping"
   ClipCheck = "raise"
   Optimised = FALSE
